@@ -357,6 +357,11 @@ func c15Step(c *core.Ctx, real *types.Project, pre absProject, o absOp, n int) (
 			break
 		}
 	}
+	// the receiver is a value: whatever was derived from it, it still projects to the same abstract project
+	if after := absOf(real, n); !reflect.DeepEqual(after, pre) {
+		c.Report(core.Finding{Sig: "receiver-modified:" + o.Op, Detail: fmt.Sprintf("%s%v/%s modified the project it was applied to: %+v became %+v", o.Op, o.Names, o.Policy, pre, after),
+			Replay: map[string]interface{}{"pre": pre, "op": o}})
+	}
 	ev := c15Event{pre: pre, o: o}
 	if err != nil {
 		ev.post = map[string]bool{"error": true}
